@@ -28,14 +28,44 @@ def set_needs_recovery(img, on=True):
         f.write(sb)
 
 
-def build_journal_world(rng, wd, want_formats=None):
-    """Returns a dict describing the world, or None if the configuration was rejected."""
-    cfg = gen_config(rng, small=True, want=["has_journal"], avoid=["mmp", "bigalloc", "journal_dev"])
+def jplan_kw(jw):
+    """Plan keyword arguments every tool run on this world needs (external journal lookup)."""
+    return {"extjournal": jw["jdev"]} if jw.get("jdev") else {}
+
+
+def build_journal_world(rng, wd, want_formats=None, external=None):
+    """Returns a dict describing the world, or None if the configuration was rejected.
+    external: the journal lives on its own device (own barrier, found through the blkid lookup)."""
+    if external is None:
+        external = rng.chance(0.3)
+    cfg = gen_config(rng, small=True, want=["has_journal"], avoid=["mmp", "bigalloc", "journal_dev"] + (["orphan_file"] if external else []))
     cfg["size_kib"] = max(cfg["size_kib"], 8192 if cfg["bs"] <= 2048 else 16384)
     cfg["jsize"] = cfg["bs"] // 1024     # the minimum: 1024 journal blocks
     cfg["lazy"] = rng.chance(0.5)
     img = os.path.join(wd, "img")
-    r = mkfs(cfg, img, wd, rand_seed=rng.u64() >> 1)
+    jdev = None
+    pkw = {}
+    devs = None
+    if external:
+        jdev = os.path.join(wd, "jdev")
+        jblk = rng.choice([1024, 1024, 1100, 1536, 2048])
+        with open(jdev, "wb") as f:
+            f.truncate(jblk * cfg["bs"])
+        rj = run_sim([tool("mke2fs"), "-q", "-F", "-O", "journal_dev", "-b", str(cfg["bs"]), jdev, str(jblk)],
+                     Plan([(jdev, "blk dz")], None, clock=1499999000, rand_seed=rng.u64() >> 1), wd, tag="mkj")
+        if rj.status != 0 or rj.san:
+            return None
+        cfg = dict(cfg)
+        cfg.pop("jsize", None)
+        pkw = {"extjournal": jdev}
+        devs = [img, (jdev, "blk dz")]
+        with open(img, "wb") as f:
+            f.truncate(cfg["size_kib"] * 1024)
+        from world import mkfs_argv
+        argv = mkfs_argv(cfg, img, extra=["-J", "device=" + jdev])
+        r = run_sim(argv, Plan(devs, None, clock=1500000000, rand_seed=rng.u64() >> 1, **pkw), wd, tag="mkfs")
+    else:
+        r = mkfs(cfg, img, wd, rand_seed=rng.u64() >> 1)
     if r.status != 0 or r.san:
         return None
     cmds, _desc = gen_population(rng, cfg, wd, scale=0.4, big_dir=0)
@@ -45,25 +75,38 @@ def build_journal_world(rng, wd, want_formats=None):
         for i in range(ntarget):
             f.write((b"TGT%05d" % i) * (cfg["bs"] // 8))
     cmds.append('write "%s" /jtarget' % host)
-    pr = debugfs_script(img, cmds, wd, tag="pop", rand_seed=rng.u64() >> 1)
+    pr = debugfs_script(img, cmds, wd, tag="pop", rand_seed=rng.u64() >> 1, plan_kw=pkw, devices=devs)
     m = re.findall(rb"Allocated inode: (\d+)", pr.out)
     if not m:
         return None
     tino = int(m[-1])
-    e2fsck(img, ["-fy"], wd, tag="settle", problems=False)
+    e2fsck(img, ["-fy"], wd, tag="settle", problems=False, devices=devs, plan_kw=pkw)
     data = open(img, "rb").read()
     fs = minifs.MiniFS(data)
-    if not fs.journal_inum:
-        return None
-    jblocks = minifs.file_blocks(fs, fs.journal_inum)
     targets = [b for b in minifs.file_blocks(fs, tino) if b]
-    if len(jblocks) < 1024 or 0 in jblocks or len(targets) < 20:
-        return None
     bs = fs.bs
-    jsb_raw = data[jblocks[0] * bs:jblocks[0] * bs + bs]
-    jsb = J.parse_jsb(jsb_raw)
-    if jsb["magic"] != J.MAGIC:
-        return None
+    if external:
+        jdata = open(jdev, "rb").read()
+        jsb_blk = 2 if bs == 1024 else 1
+        jsb_raw = jdata[jsb_blk * bs:jsb_blk * bs + bs]
+        jsb = J.parse_jsb(jsb_raw)
+        if jsb["magic"] != J.MAGIC or jsb["nr_users"] != 1:
+            return None
+        jblocks = list(range(jsb["maxlen"]))
+        if len(jdata) < jsb["maxlen"] * bs or len(targets) < 20:
+            return None
+    else:
+        if not fs.journal_inum:
+            return None
+        jblocks = minifs.file_blocks(fs, fs.journal_inum)
+        if len(jblocks) < 1024 or 0 in jblocks or len(targets) < 20:
+            return None
+        jsb_blk = jblocks[0]
+        jsb_raw = data[jblocks[0] * bs:jblocks[0] * bs + bs]
+        jsb = J.parse_jsb(jsb_raw)
+        if jsb["magic"] != J.MAGIC:
+            return None
+        jdata = None
     maxlen, first = jsb["maxlen"], jsb["first"]
     fmtspec = rng.choice(want_formats or FORMATS)
     fmt = J.JournalFormat(*fmtspec)
@@ -137,7 +180,8 @@ def build_journal_world(rng, wd, want_formats=None):
             stream.append((i, pos, blk, role))
     return {"cfg": cfg, "img": img, "fs": fs, "bs": bs, "jblocks": jblocks, "jsb_raw": jsb_raw, "jsb": jsb, "fmt": fmt,
             "txns": txns, "stream": stream, "journal_pre": journal, "start": start, "seq0": seq0, "targets": targets,
-            "stale": stale_mode, "wrapped": w.wrapped, "pre": data}
+            "stale": stale_mode, "wrapped": w.wrapped, "pre": data, "jdev": jdev, "jsb_blk": jsb_blk, "jpre": jdata,
+            "jimg": jdev or img}
 
 
 def crash_log(rng, jw, mode=None):
@@ -176,7 +220,7 @@ def crash_log(rng, jw, mode=None):
 def install_journal(jw, applied, torn=None):
     """Write the journal (stale content + applied stream), the journal superblock and needs_recovery."""
     bs = jw["bs"]
-    with open(jw["img"], "r+b") as f:
+    with open(jw["jimg"], "r+b") as f:
         for pos, blk in jw["journal_pre"].items():
             f.seek(jw["jblocks"][pos] * bs)
             f.write(blk)
@@ -189,7 +233,7 @@ def install_journal(jw, applied, torn=None):
             else:
                 f.write(blk)
         jsb = J.make_jsb(jw["jsb_raw"][:1024], bs, jw["fmt"], jw["start"], jw["seq0"])
-        f.seek(jw["jblocks"][0] * bs)
+        f.seek(jw["jsb_blk"] * bs)
         f.write(jsb)
     set_needs_recovery(jw["img"], True)
 
@@ -204,7 +248,7 @@ def mask_volatile(data, jw):
     return bytes(d)
 
 
-def check_replayed(post, jw, exp, untouched, o=None):
+def check_replayed(post, jw, exp, untouched, o=None, jpost=None):
     """Compare the image after recovery with the reference semantics.  Returns list of (clause, detail)."""
     bs = jw["bs"]
     pre = jw["pre"]
@@ -223,7 +267,7 @@ def check_replayed(post, jw, exp, untouched, o=None):
                         "rewritten (%r...)" % (b, post[b * bs:b * bs + 18])))
             break
     # every other block outside the journal and the primary superblock is byte-identical
-    skip = set(jw["jblocks"])
+    skip = set(jw["jblocks"]) if not jw.get("jdev") else set()
     skip.add(1024 // bs)
     skip.add(0)
     named = set(exp) | untouched
@@ -235,7 +279,8 @@ def check_replayed(post, jw, exp, untouched, o=None):
             bad.append(("collateral", "fs block %d is named by no transaction but changed during recovery" % b))
             break
     # journal empty, recovery no longer requested
-    jsb = J.parse_jsb(post[jw["jblocks"][0] * bs:jw["jblocks"][0] * bs + 1024])
+    jsrc = post if not jw.get("jdev") else (jpost if jpost is not None else open(jw["jdev"], "rb").read())
+    jsb = J.parse_jsb(jsrc[jw["jsb_blk"] * bs:jw["jsb_blk"] * bs + 1024])
     if jsb["start"] != 0:
         bad.append(("journal_not_empty", "journal superblock s_start=%d after recovery" % jsb["start"]))
     inc = struct.unpack_from("<I", post, 1024 + 96)[0]
